@@ -798,6 +798,43 @@ fn gen_c08(out: &mut Out, rng: &mut Rng, thorough: bool) {
         }
     }
     let caps = caps();
+    // forced masks whose penalty TIES with another mask's (found with the recorder on an automatic build): a symbol
+    // forced to the later of two tied masks must still be masked with it (small symbols tie most often)
+    for v in 0..(if thorough { 12 } else { 6 }) {
+        let mut found = 0;
+        for _ in 0..(if thorough { 600 } else { 120 }) {
+            let e = rng.below(4);
+            let md = rng.below(3);
+            let len = rng.range(0, caps[md][e][v].min(24));
+            let inp = content(rng, md, len);
+            h::recorder_start();
+            let _ = build(&inp, Opts { ecl: Some(e), mode: Some(md), version: Some(v), mask: None });
+            let cands = h::recorder_take();
+            let best = cands.iter().map(|c| c.score).min().unwrap_or(0);
+            let tied: Vec<usize> = cands.iter().filter(|c| c.score == best).map(|c| c.mask as usize).collect();
+            let any_tie: Vec<(usize, usize)> = if tied.len() >= 2 {
+                vec![(tied[0], tied[1])]
+            } else {
+                let mut t = Vec::new();
+                'o: for a in 0..cands.len() {
+                    for b in (a + 1)..cands.len() {
+                        if cands[a].score == cands[b].score {
+                            t.push((cands[a].mask as usize, cands[b].mask as usize));
+                            break 'o;
+                        }
+                    }
+                }
+                t
+            };
+            for (a, b) in any_tie {
+                if found < (if thorough { 40 } else { 8 }) {
+                    found += 1;
+                    let i2 = inp.clone();
+                    out.job(move || pair_line(&i2, e, md, v, a.min(b), a.max(b)));
+                }
+            }
+        }
+    }
     let versions: Vec<usize> = if thorough { (0..40).collect() } else { vec![0, 1, 6, 13, 26, 39] };
     for v in versions {
         let reps = if thorough { 3 } else { 1 };
@@ -1082,6 +1119,26 @@ fn gen_c18(out: &mut Out, rng: &mut Rng, thorough: bool) {
         }
         if which & 4 != 0 {
             ops.push(Op::ImagePosition(svgops::rand_dyadic(rng, 0, n + 8), svgops::rand_dyadic(rng, 0, n + 8)));
+        }
+        // the setters in ANY order (the geometry depends on the final values only), sometimes with an earlier value
+        // of the same setter that the later call overrides
+        if rng.chance(1, 4) {
+            match rng.below(3) {
+                0 => ops.insert(0, Op::ImageSize(svgops::rand_dyadic(rng, 1, n / 2))),
+                1 => ops.insert(0, Op::ImageGap(svgops::rand_dyadic(rng, 0, 4))),
+                _ => ops.insert(0, Op::ImagePosition(svgops::rand_dyadic(rng, 0, n + 8), svgops::rand_dyadic(rng, 0, n + 8))),
+            }
+            // keep the overriding call after it: only the tail is permuted below
+            if rng.chance(1, 2) {
+                let k = ops.len();
+                for i in (2..k).rev() {
+                    ops.swap(i, rng.range(1, i));
+                }
+            }
+        } else if rng.chance(1, 2) {
+            for i in (1..ops.len()).rev() {
+                ops.swap(i, rng.below(i + 1));
+            }
         }
         out.job(move || svg_line(&inp, o, &ops));
     }
